@@ -93,7 +93,8 @@ class Net:
         delays = list(self.fate(tx))
         self.log.append(("tx", tx.n, tx.t, src, dst, tx.data, tuple(delays)))
         for d in delays:
-            self.loop.call_later(max(0.0, d), self._arrive, tx)
+            # equal delays keep FIFO order (heapq is not stable): add a strictly increasing, negligible offset
+            self.loop.call_later(max(0.0, d) + (self.ntx % 1000000) * 1e-10, self._arrive, tx)
 
     def inject(self, src, dst, data, delay=0.0):
         """third-party / forged datagram (not produced by an endpoint)"""
